@@ -168,6 +168,18 @@ class PoolSum(sp.Expr):
     def free_symbols(self) -> set[sp.Basic]:
         return super().free_symbols - {s for s, _ in self.indices}
 
+    def _eval_subs(self, old, new, **hints) -> PoolSum | None:
+        # Summation indices are bound variables and should not be substituted
+        if any(old == idx for idx, _ in self.indices):
+            return self
+        return None
+
+    def _xreplace(self, rule) -> tuple[sp.Expr, bool]:
+        bound_symbols = {idx for idx, _ in self.indices}
+        if any(idx in rule for idx in bound_symbols):
+            rule = {k: v for k, v in rule.items() if k not in bound_symbols}
+        return super()._xreplace(rule)
+
     @override
     def doit(self, deep: bool = True) -> sp.Expr:  # type: ignore[misc]
         expr = self.evaluate()
